@@ -11,6 +11,7 @@ import glob, os, re
 import t2nlib
 
 _CACHE = {}
+MAX_NUM = 1 << 22
 
 _CHAR_LIT = re.compile(r"'(\\u\{[0-9a-fA-F]{1,6}\}|\\x[0-9a-fA-F]{2}|\\.|[^'\\])'")
 _STR_LIT = re.compile(r'b?"((?:[^"\\]|\\.)*)"')
@@ -53,7 +54,7 @@ def _code(path):
 
 
 def mine():
-    """-> {"chars": sorted list of characters that are neither letters nor digits, "nums": sorted list of ints in [2, 200000],
+    """-> {"chars": sorted list of characters that are neither letters nor digits, "nums": sorted list of ints in [2, 2^22],
            "strs": short non-vocabulary string literals}"""
     key = t2nlib.REPO
     if key in _CACHE:
@@ -91,14 +92,26 @@ def mine():
                 v = int(t, 16) if t.startswith("0x") else int(t)
             except ValueError:
                 continue
-            if 2 <= v <= 200000:
+            if 2 <= v <= MAX_NUM:
                 nums.add(v)
             if t.startswith("0x") and v <= 0x10FFFF and not (0xD800 <= v <= 0xDFFF):
                 c = chr(v)                       # a code point written as a number (`c as u32 == 0xFEFF`)
                 if not c.isalnum():
                     chars.add(c)
+        # constants written as expressions or implied by a type: `1 << 20`, `2usize.pow(16)`, `u16::try_from(..)`, `as u8`
+        for m in re.finditer(r"\b(\d+)(?:usize|u32|u64|i32|i64)?\s*<<\s*(\d+)", s3):
+            v = int(m.group(1)) << min(int(m.group(2)), 40)
+            if 2 <= v <= MAX_NUM:
+                nums.add(v)
+        for m in re.finditer(r"\b(\d+)(?:_?(?:usize|u32|u64|i32|i64))?\s*\.\s*pow\(\s*(\d+)\s*\)", s3):
+            v = int(m.group(1)) ** min(int(m.group(2)), 64)
+            if 2 <= v <= MAX_NUM:
+                nums.add(v)
+        for ty, v in (("u8", 256), ("i8", 128), ("u16", 65536), ("i16", 32768)):
+            if re.search(r"\b%s\b" % ty, s3):
+                nums.add(v)
     chars.discard(" ")
-    r = {"chars": sorted(chars), "nums": sorted(n for n in nums if 2 <= n <= 200000), "strs": sorted(strs), "words": sorted(words),
+    r = {"chars": sorted(chars), "nums": sorted(n for n in nums if 2 <= n <= MAX_NUM), "strs": sorted(strs), "words": sorted(words),
          "letters": sorted(letters)}
     _CACHE[key] = r
     return r
@@ -110,7 +123,7 @@ def sizes(lo=41, hi=70000):
     ns = mine()["nums"]
     out = set()
     for n in ns:
-        for v in (n - 1, n, n + 1, 2 * n - 1, 2 * n, 2 * n + 1, 4 * n - 1, 4 * n, 4 * n + 1):
+        for v in (n - 1, n, n + 1, 2 * n - 1, 2 * n, 2 * n + 1, 4 * n - 1, 4 * n, 4 * n + 1, n // 2 - 1, n // 2, n // 2 + 1):
             out.add(v)
     return sorted(v for v in out if lo <= v <= hi)
 
